@@ -515,8 +515,13 @@ func r197(c *Ctx) {
 		n++
 		name := cfgRel + "." + tn.Name()
 		ms := types.NewMethodSet(tn.Type())
-		valFn := p.SSA.MethodValue(ms.Lookup(pk.Types, "value"))
-		newFn := p.SSA.MethodValue(ms.Lookup(pk.Types, "newManager"))
+		var valFn, newFn *ssa.Function
+		if sel := ms.Lookup(pk.Types, "value"); sel != nil {
+			valFn = p.SSA.MethodValue(sel)
+		}
+		if sel := ms.Lookup(pk.Types, "newManager"); sel != nil {
+			newFn = p.SSA.MethodValue(sel)
+		}
 		if valFn == nil || newFn == nil {
 			r.Undecide("R19.7", name, "value()/newManager()", p.Pos(tn.Pos()), "methods not found")
 			continue
